@@ -27,7 +27,7 @@ EXTENDS Naturals, Sequences, FiniteSets, TLC
 CONSTANTS MaxErrs,      \* model bound: a rejection carries 1..MaxErrs errors
           MaxBytes,     \* model bound: a success writes 1..MaxBytes bytes
           MaxRender,    \* model bound: a rendering is 1..MaxRender characters long
-          NumInputs     \* model bound: inputs are TokenStringAt(Tok20, 1..NumInputs)
+          NumInputs     \* model bound: inputs are TokenTextAt(Tok20, 1..NumInputs, "top")
 
 VARIABLES phase,     \* "idle" | "started" | "parsed" | "compiled" | "failed" | "finished"
           input,     \* the text the run was started on ("" while idle)
@@ -76,7 +76,18 @@ Spell(alpha, m, l) ==
 \* 1-based: index 1 is the empty text, then all 1-token texts, all 2-token texts, ...
 TokenStringAt(alpha, i) == LET lm == BlockOf(Len(alpha), i - 1, 0) IN Spell(alpha, lm[2], lm[1])
 
-Inputs == {TokenStringAt(Tok20, i) : i \in 1..NumInputs}
+\* Frames.  A token string on its own ("raw") almost never gets past the parser: a statement ends at a
+\* newline and a program needs an entry point.  The framed universes put the same token strings where
+\* the later phases see them: "top" = as top-level text in front of a minimal entry point, "body" = as
+\* the body of the entry point (statements: if, ret, loop, break, case, inner definitions).
+EntryPoint == "start :: fn do end"
+TokenTextAt(alpha, i, frame) ==
+    LET s == TokenStringAt(alpha, i) IN
+    CASE frame = "raw"  -> s
+      [] frame = "top"  -> s \o NL \o EntryPoint \o NL
+      [] frame = "body" -> "start :: fn do" \o NL \o s \o NL \o "end" \o NL
+
+Inputs == {TokenTextAt(Tok20, i, "top") : i \in 1..NumInputs}
 
 ---------------------------------------------------------------------------
 Init == /\ phase = "idle" /\ input = "" /\ stage = "none"
